@@ -395,6 +395,15 @@ Proof.
     intros x Hx. specialize (Hl x Hx). apply andb_prop in Hl as [_ Hl]. exact Hl.
 Qed.
 
+Lemma text_lines_map {X} (f : X -> list N) (xs : list X) :
+  Forall (fun x => safe (f x) = true) xs ->
+  text_lines (concat (map (fun x => f x ++ [nl]) xs)) = map (fun x => f x ++ [nl]) xs.
+Proof.
+  intros H. rewrite <- (map_map f (fun l => l ++ [nl])). apply text_lines_rows.
+  apply Forall_forall. intros l Hl. apply in_map_iff in Hl as (x & <- & Hx).
+  rewrite Forall_forall in H. apply H. exact Hx.
+Qed.
+
 Lemma rows_preset_some {S I} (s : S) (src : list I) : rows_preset (Some s) src = Ok src.
 Proof. destruct src; reflexivity. Qed.
 
@@ -406,15 +415,385 @@ Proof.
   intros Hnd Hfit Hsafe. destruct (fits_inv widths T Hfit) as [Hlen Hrows].
   unfold read_fixed, expected, expected_rows. cbn [map fst snd pad_table t_rows].
   f_equal. f_equal.
-  unfold write_fixed_text, write_fixed_row. Show.
-  replace (map (fun r => concat (pad_row widths r) ++ [nl]) (t_rows T))
-    with (map (fun l => l ++ [10%N]) (map (fun r => concat (pad_row widths r)) (t_rows T)))
-    by (rewrite map_map; reflexivity).
-  rewrite text_lines_rows.
+  unfold write_fixed_text, write_fixed_row.
+  erewrite text_lines_map.
   - rewrite rows_preset_some. cbn [bind]. f_equal. rewrite !map_map. apply map_ext_in. intros r Hr.
     destruct (Hrows r Hr) as [Hr1 Hr2].
     apply text_row_ok; [exact Hnd|exact Hlen|apply pad_row_lengths; assumption].
-  - apply Forall_forall. intros l Hl. apply in_map_iff in Hl as (r & <- & Hr).
+  - apply Forall_forall. intros r Hr.
     apply safe_concat. apply safe_pad_row.
     unfold line_safe in Hsafe. rewrite forallb_forall in Hsafe. apply Hsafe. exact Hr.
 Qed.
+
+(* ================================================================ Part D: EBCDIC *)
+(* ---- code page 037: decoding what was encoded ---- *)
+Lemma index_in_nth c : forall (l : list N) (i b : N),
+  index_in c l i = Some b -> exists j, b = (i + N.of_nat j)%N /\ nth_error l j = Some c.
+Proof.
+  induction l as [|x l IH]; intros i b H; [discriminate|].
+  cbn [index_in] in H. destruct (N.eqb x c) eqn:E.
+  - injection H as <-. apply N.eqb_eq in E. subst x. exists 0. split; [lia|reflexivity].
+  - destruct (IH _ _ H) as (j & -> & Hj). exists (S j). split; [lia|exact Hj].
+Qed.
+
+Lemma decode_encode c : in_repertoire c = true -> Estruct.cp037 (encode_char c) = c.
+Proof.
+  unfold in_repertoire, encode_char, cp037_encode. destruct (index_in c cp037_table 0) as [b|] eqn:E; [|discriminate].
+  intros _. destruct (index_in_nth c _ _ _ E) as (j & -> & Hj).
+  unfold Estruct.cp037. replace (N.to_nat (0 + N.of_nat j)) with j by lia.
+  apply nth_error_nth. exact Hj.
+Qed.
+
+Lemma decode_encode_text s : forallb in_repertoire s = true -> map Estruct.cp037 (encode_text s) = s.
+Proof.
+  induction s as [|c s IH]; intros H; [reflexivity|].
+  cbn [forallb] in H. apply andb_prop in H as [Hc Hs].
+  unfold encode_text in *. cbn [map]. rewrite (decode_encode c Hc), (IH Hs). reflexivity.
+Qed.
+
+Lemma blank_in_repertoire : in_repertoire blank = true.
+Proof. vm_compute. reflexivity. Qed.
+
+(* the repertoire of code page 037 is Latin-1: every code point below 256 has a byte *)
+Lemma latin1_in_repertoire c : (c < 256)%N -> in_repertoire c = true.
+Proof.
+  intros H.
+  assert (Hall : forallb in_repertoire (map N.of_nat (seq 0 256)) = true) by (vm_compute; reflexivity).
+  rewrite forallb_forall in Hall. apply Hall. apply in_map_iff. exists (N.to_nat c).
+  split; [lia|]. apply in_seq. lia.
+Qed.
+
+Lemma repertoire_pad w c : forallb in_repertoire c = true -> forallb in_repertoire (pad w c) = true.
+Proof.
+  intros H. unfold pad. rewrite forallb_app, H. cbn [andb].
+  induction (w - length c) as [|n IH]; [reflexivity|]. cbn [repeat forallb]. rewrite blank_in_repertoire, IH. reflexivity.
+Qed.
+
+Lemma repertoire_pad_row : forall (ws : list nat) (r : list text),
+  forallb (forallb in_repertoire) r = true -> Forall (fun c => forallb in_repertoire c = true) (pad_row ws r).
+Proof.
+  induction ws as [|w ws IH]; intros [|c r] H; try (unfold pad_row; cbn; constructor).
+  - cbn [forallb] in H. apply andb_prop in H as [Hc Hr]. apply repertoire_pad. exact Hc.
+  - cbn [forallb] in H. apply andb_prop in H as [Hc Hr]. apply (IH r Hr).
+Qed.
+
+(* ---- one record ---- *)
+Lemma usage_is_display : usage_DISPLAY = display_spelling.
+Proof. reflexivity. Qed.
+
+Lemma ebcdic_row_ok (hs : list key) (ws : list nat) (cells : list text) (tail : list N) :
+  NoDup hs -> length ws = length hs -> Forall2 len_is ws cells ->
+  Forall (fun c => forallb in_repertoire c = true) cells ->
+  map (fun k => ebcdic_value (layout_of hs ws) k (encode_text (concat cells) ++ tail)) hs
+  = map (fun c => Ok (Some (Txt c))) cells.
+Proof.
+  intros Hnd Hlen HF Hrep.
+  assert (HF' : Forall2 (fun w (c : list N) => length c = w) ws (map encode_text cells)).
+  { clear Hrep Hlen. induction HF as [|w c ws cells Hc HF IH]; [constructor|].
+    cbn [map]. constructor; [unfold encode_text; rewrite map_length; exact Hc|exact IH]. }
+  assert (Hcat : encode_text (concat cells) = concat (map encode_text cells)) by (unfold encode_text; apply concat_map).
+  apply (by_index_map (fun k => ebcdic_value (layout_of hs ws) k (encode_text (concat cells) ++ tail))
+           (fun o => match o with Some c => Ok (Some (Txt c)) | None => Err KeyError end) hs cells).
+  - transitivity (length ws); [symmetry; exact (Forall2_same_length _ _ _ HF)|exact Hlen].
+  - intros i k Hk. rewrite Hcat.
+    destruct (field_ok hs ws (map encode_text cells) tail i k Hnd Hlen HF' Hk) as (c' & Hc' & Hf).
+    unfold ebcdic_value. rewrite Hf. cbn [bind fst snd].
+    rewrite nth_error_map in Hc'. unfold text, key in *.
+    destruct (nth_error cells i) as [c|] eqn:Ec; [|discriminate Hc'].
+    cbn [option_map] in Hc'. injection Hc' as <-.
+    rewrite usage_is_display, (C02_text (length (encode_text c)) (encode_text c) eq_refl).
+    rewrite decode_encode_text; [reflexivity|].
+    rewrite Forall_forall in Hrep. apply Hrep. eapply nth_error_In. exact Ec.
+Qed.
+
+(* ---- the records of the file ---- *)
+Lemma concat_length_sum {A} (ws : list nat) (cells : list (list A)) :
+  Forall2 (fun w c => length c = w) ws cells -> length (concat cells) = list_sum ws.
+Proof.
+  induction 1 as [|w c ws cells Hc HF IH]; [reflexivity|].
+  cbn [concat list_sum]. rewrite app_length, IH, Hc. reflexivity.
+Qed.
+
+Lemma fold_widths (l : layout) : forall acc, fold_left (fun a p => a + snd p) l acc = acc + list_sum (map snd l).
+Proof.
+  induction l as [|p l IH]; intros acc; cbn [fold_left map]; [cbn; lia|]. rewrite IH. change (list_sum (snd p :: map snd l)) with (snd p + list_sum (map snd l)). lia.
+Qed.
+
+Lemma layout_end_sum (hs : list key) (ws : list nat) : length ws = length hs ->
+  layout_end (layout_of hs ws) = list_sum ws.
+Proof.
+  intros H. unfold layout_end, layout_of. rewrite fold_widths. cbn. f_equal.
+  revert ws H. induction hs as [|h hs IH]; intros [|w ws] H; try discriminate H; [reflexivity|].
+  cbn [combine map snd]. f_equal. apply IH. cbn in H. lia.
+Qed.
+
+Lemma sum_positive (ws : list nat) : ws <> [] -> Forall (fun w => 1 <= w) ws -> 1 <= list_sum ws.
+Proof.
+  intros Hne H. destruct ws as [|w ws]; [contradiction|].
+  inversion H; subst. change (list_sum (w :: ws)) with (w + list_sum ws). lia.
+Qed.
+
+Definition record_of (widths : list nat) (r : list text) : list N := encode_text (concat (pad_row widths r)).
+
+Lemma record_length widths T r : fits widths T = true -> In r (t_rows T) ->
+  length (record_of widths r) = list_sum widths.
+Proof.
+  intros Hfit Hr. destruct (fits_inv widths T Hfit) as [_ Hrows]. destruct (Hrows r Hr) as [H1 H2].
+  unfold record_of, encode_text. rewrite map_length.
+  apply (concat_length_sum widths (pad_row widths r)). apply pad_row_lengths; assumption.
+Qed.
+
+Lemma N_run_extend {A} mode kind B : forall (lens extra : list nat) (s : Recfm.st A) bufs s',
+  Recfm.N_run mode kind B s lens = (bufs, Recfm.Done, s') ->
+  Recfm.N_run mode kind B s (lens ++ extra) = (bufs, Recfm.Done, s').
+Proof.
+  induction lens as [|n lens IH]; intros extra s bufs s' H.
+  - cbn [app]. cbn [Recfm.N_run] in H. destruct (Recfm.buf s) eqn:E; [|discriminate H].
+    destruct extra; cbn [Recfm.N_run]; rewrite E; exact H.
+  - cbn [app Recfm.N_run] in *. destruct (Recfm.buf s) eqn:E; [exact H|].
+    destruct (n =? 0); [discriminate H|].
+    destruct (Recfm.N_step mode kind B s n) as [s0|e]; [|discriminate H].
+    destruct (Recfm.N_run mode kind B s0 lens) as [[items f] s''] eqn:E2.
+    injection H as <- -> <-. rewrite (IH extra s0 items s'' E2). reflexivity.
+Qed.
+
+Lemma heads_prefix {A} : forall (recs bufs : list (list A)),
+  length bufs = length recs -> heads (map (@length A) recs) bufs = recs ->
+  Forall2 (fun buf rec => exists tail, buf = rec ++ tail) bufs recs.
+Proof.
+  induction recs as [|rec recs IH]; intros [|buf bufs] Hlen H; try discriminate Hlen; [constructor|].
+  unfold heads in H. cbn [map combine fst snd] in H. injection H as H1 H2.
+  constructor.
+  - exists (skipn (length rec) buf). rewrite <- H1 at 1. apply eq_sym, firstn_skipn.
+  - apply IH; [cbn in Hlen; lia|exact H2].
+Qed.
+
+Lemma ebcdic_records_ok r kind wb_lrecl T widths :
+  fits widths T = true -> t_header T <> [] ->
+  (r = RECFM_N -> list_sum widths <= N.to_nat buffer_size) ->
+  wb_lrecl = None \/ wb_lrecl = Some (list_sum widths) ->
+  exists bufs, ebcdic_records r kind wb_lrecl (layout_of (t_header T) widths) (write_ebcdic T widths) = Ok bufs
+    /\ Forall2 (fun buf row => exists tail, buf = record_of widths row ++ tail) bufs (t_rows T).
+Proof.
+  intros Hfit Hne Hbuf Hl. destruct (fits_inv widths T Hfit) as [Hlen _].
+  pose proof (fits_positive widths T Hfit) as Hpos.
+  assert (Htot : 1 <= list_sum widths).
+  { apply sum_positive; [|exact Hpos]. intros ->. apply Hne. destruct (t_header T); [reflexivity|discriminate Hlen]. }
+  set (recs := map (record_of widths) (t_rows T)).
+  assert (Hfile : write_ebcdic T widths = concat recs) by reflexivity.
+  assert (Hrl : forall rec, In rec recs -> length rec = list_sum widths).
+  { intros rec Hin. apply in_map_iff in Hin as (row & <- & Hrow). eapply record_length; eassumption. }
+  assert (Hend : layout_end (layout_of (t_header T) widths) = list_sum widths) by (apply layout_end_sum; exact Hlen).
+  assert (Hmap : forall bufs, Forall2 (fun buf rec => exists tail : list N, buf = rec ++ tail) bufs recs ->
+                   Forall2 (fun buf row => exists tail, buf = record_of widths row ++ tail) bufs (t_rows T)).
+  { unfold recs. generalize (t_rows T). intros rows bufs. revert bufs.
+    induction rows as [|row rows IH]; intros bufs HF; inversion HF; subst; constructor; [assumption|apply IH; assumption]. }
+  destruct r.
+  - (* RECFM_N *)
+    assert (Hlegal : legal_N (N.to_nat buffer_size) recs = true).
+    { unfold legal_N. apply forallb_forall. intros rec Hin. rewrite (Hrl rec Hin).
+      apply andb_true_intro. split; [apply Nat.leb_le; exact Htot|apply Nat.leb_le; apply Hbuf; reflexivity]. }
+    destruct (N_read_roundtrip kind recs Hlegal) as (bufs & s' & Hrun & Hlb & Hheads & _ & _).
+    exists bufs. split; [|apply Hmap; apply heads_prefix; assumption].
+    unfold ebcdic_records. rewrite Hend, Hfile.
+    assert (Hlens : map (@length N) recs = repeat (list_sum widths) (length recs)).
+    { clear - Hrl. induction recs as [|rec recs IH]; [reflexivity|].
+      cbn [map length repeat]. rewrite (Hrl rec (or_introl eq_refl)). f_equal. apply IH.
+      intros rec' Hin. apply Hrl. right. exact Hin. }
+    assert (Hle : length recs <= S (length (concat recs))).
+    { clear - Hrl Htot. induction recs as [|rec recs IH]; [cbn; lia|].
+      cbn [concat length]. rewrite app_length, (Hrl rec (or_introl eq_refl)).
+      assert (length recs <= S (length (concat recs))) by (apply IH; intros rec' Hin; apply Hrl; right; exact Hin). lia. }
+    replace (S (length (concat recs))) with (length recs + (S (length (concat recs)) - length recs)) by lia.
+    rewrite repeat_app, <- Hlens.
+    unfold Recfm.N_read in *. unfold write_N in Hrun.
+    rewrite (N_run_extend _ _ _ _ _ _ _ _ Hrun). reflexivity.
+  - (* RECFM_F *)
+    assert (Hlegal : legal_F (list_sum widths) recs = true).
+    { unfold legal_F. apply andb_true_intro. split; [apply Nat.leb_le; exact Htot|].
+      apply forallb_forall. intros rec Hin. apply Nat.eqb_eq. apply Hrl. exact Hin. }
+    exists recs. split.
+    + unfold ebcdic_records.
+      assert (Hlr : sheet_lrecl wb_lrecl (layout_of (t_header T) widths) = list_sum widths).
+      { destruct Hl as [->| ->]; cbn [sheet_lrecl]; [exact Hend|].
+        destruct (list_sum widths) as [|n] eqn:En; [lia|reflexivity]. }
+      rewrite Hlr, Hfile. change (concat recs) with (write_F recs).
+      rewrite (F_record_iter_ok kind (list_sum widths) recs Hlegal). reflexivity.
+    + apply Hmap. clear. induction recs as [|rec recs IH]; constructor; [exists []; symmetry; apply app_nil_r|exact IH].
+Qed.
+
+Lemma ebcdic_ok r kind wb_lrecl T widths :
+  NoDup (t_header T) -> fits widths T = true -> repertoire_ok T = true -> t_header T <> [] ->
+  (r = RECFM_N -> list_sum widths <= N.to_nat buffer_size) ->
+  wb_lrecl = None \/ wb_lrecl = Some (list_sum widths) ->
+  read_ebcdic r kind wb_lrecl (write_ebcdic T widths) (layout_of (t_header T) widths) (t_header T)
+  = expected [([], pad_table widths T)].
+Proof.
+  intros Hnd Hfit Hrep Hne Hbuf Hl.
+  destruct (ebcdic_records_ok r kind wb_lrecl T widths Hfit Hne Hbuf Hl) as (bufs & Hrec & HF).
+  destruct (fits_inv widths T Hfit) as [Hlen Hrows].
+  unfold read_ebcdic, expected, expected_rows. cbn [map fst snd pad_table t_rows].
+  rewrite Hrec. cbn [bind]. rewrite rows_preset_some. cbn [bind]. f_equal. f_equal. f_equal.
+  rewrite map_map.
+  assert (Hrep' : forall row, In row (t_rows T) -> forallb (forallb in_repertoire) row = true).
+  { intros row Hrow. unfold repertoire_ok in Hrep. rewrite forallb_forall in Hrep. apply Hrep. exact Hrow. }
+  clear Hrec. revert HF Hrows Hrep'. generalize (t_rows T). intros rows HF.
+  induction HF as [|buf row bufs rows (tail & ->) HF IH]; intros Hrows Hrep'; [reflexivity|].
+  cbn [map]. f_equal.
+  - destruct (Hrows row (or_introl eq_refl)) as [H1 H2]. unfold record_of.
+    apply ebcdic_row_ok; [exact Hnd|exact Hlen|apply pad_row_lengths; assumption|].
+    apply repertoire_pad_row. apply Hrep'. left. reflexivity.
+  - apply IH; [intros row' Hin; apply Hrows; right; exact Hin|intros row' Hin; apply Hrep'; right; exact Hin].
+Qed.
+
+(* ================================================================ Part E: the suffix selects the reader *)
+Lemma reader_for_ok f : reader_for f = Ok f.
+Proof. destruct f; vm_compute; reflexivity. Qed.
+
+(* ================================================================ Part F: through the third-party parsers *)
+Lemma storable_single_inv f W : single_sheet f = true -> storable f W = true -> exists T, W = [([], T)].
+Proof.
+  unfold storable. intros -> H. destruct W as [|[n T] [|p l]]; [discriminate H| |destruct n; discriminate H].
+  destruct n; [exists T; reflexivity|discriminate H].
+Qed.
+
+Lemma facade_phys f W : third_party f = true -> storable f W = true -> wf_workbook W ->
+  facade_read f (phys f W) (headers W) = expected W.
+Proof.
+  intros Htp Hst [Hnd Hwf].
+  destruct f; try discriminate Htp; cbn [facade_read phys];
+    try (apply multi_ok; split; assumption).
+  - destruct (storable_single_inv F_CSV W eq_refl Hst) as [T ->]; inversion Hwf; subst. apply single_ok. assumption.
+  - destruct (storable_single_inv F_TAB W eq_refl Hst) as [T ->]; inversion Hwf; subst. apply single_ok. assumption.
+  - destruct (storable_single_inv F_NDJSON W eq_refl Hst) as [T ->]; inversion Hwf; subst. apply json_ok. assumption.
+Qed.
+
+Lemma rect_pad_table widths T : fits widths T = true -> rect (pad_table widths T) = true.
+Proof.
+  intros Hfit. destruct (fits_inv widths T Hfit) as [Hlen Hrows].
+  unfold rect, pad_table. cbn [t_header t_rows]. apply forallb_forall. intros r Hr.
+  apply in_map_iff in Hr as (r0 & <- & Hr0). destruct (Hrows r0 Hr0) as [H1 _].
+  apply Nat.eqb_eq. unfold pad_row. rewrite map_length, combine_length. unfold text in *. lia.
+Qed.
+
+Lemma wf_single T : wf_table T -> wf_workbook [([], T)].
+Proof.
+  intros H. split; [cbn; constructor; [intros []|constructor]|]. constructor; [exact H|constructor].
+Qed.
+
+Lemma storable_single f T : storable f [([], T)] = true.
+Proof. unfold storable. destruct (single_sheet f); reflexivity. Qed.
+
+Section ThirdParty.
+Variable image : Type.
+(* what csv.writer / openpyxl / pyexcel_ods3 / json.dumps produce for W, what csv.reader / openpyxl / pyexcel /
+   xlrd / json.loads deliver for a file *)
+Variable ext_write : fmt -> workbook -> image.
+Variable ext_parse : fmt -> image -> content.
+(* ASSUMED, not proved: the third-party pair returns the stored table *)
+Hypothesis H_ext : forall f W, third_party f = true -> storable f W = true ->
+  ext_parse f (ext_write f W) = phys f W.
+
+Lemma facade_ok f W : third_party f = true -> storable f W = true -> wf_workbook W ->
+  open_read ext_parse f (ext_write f W) (headers W) = Ok (expected W).
+Proof.
+  intros Htp Hst Hwf. unfold open_read. rewrite reader_for_ok. cbn [bind].
+  rewrite (H_ext f W Htp Hst), (facade_phys f W Htp Hst Hwf). reflexivity.
+Qed.
+
+Lemma agree_ok f g W : third_party f = true -> third_party g = true ->
+  storable f W = true -> storable g W = true -> wf_workbook W ->
+  open_read ext_parse f (ext_write f W) (headers W) = open_read ext_parse g (ext_write g W) (headers W).
+Proof. intros. rewrite !facade_ok by assumption. reflexivity. Qed.
+
+(* a fixed-width file of T reads like any other format's file of the padded T *)
+Lemma agree_fixed_text f T widths : third_party f = true ->
+  NoDup (t_header T) -> fits widths T = true -> line_safe T = true ->
+  open_read ext_parse f (ext_write f [([], pad_table widths T)]) [t_header T]
+  = Ok (read_fixed (write_fixed_text T widths) (layout_of (t_header T) widths) (t_header T)).
+Proof.
+  intros Htp Hnd Hfit Hsafe. rewrite fixed_text_ok by assumption.
+  apply (facade_ok f [([], pad_table widths T)] Htp (storable_single f _)).
+  apply wf_single. split; [exact Hnd|apply rect_pad_table; exact Hfit].
+Qed.
+
+Lemma agree_ebcdic f r kind wb_lrecl T widths : third_party f = true ->
+  NoDup (t_header T) -> fits widths T = true -> repertoire_ok T = true -> t_header T <> [] ->
+  (r = RECFM_N -> list_sum widths <= N.to_nat buffer_size) ->
+  wb_lrecl = None \/ wb_lrecl = Some (list_sum widths) ->
+  open_read ext_parse f (ext_write f [([], pad_table widths T)]) [t_header T]
+  = Ok (read_ebcdic r kind wb_lrecl (write_ebcdic T widths) (layout_of (t_header T) widths) (t_header T)).
+Proof.
+  intros Htp Hnd Hfit Hrep Hne Hbuf Hl. rewrite ebcdic_ok by assumption.
+  apply (facade_ok f [([], pad_table widths T)] Htp (storable_single f _)).
+  apply wf_single. split; [exact Hnd|apply rect_pad_table; exact Hfit].
+Qed.
+
+(* Numbers: the abstract input is a document of sheets holding named tables *)
+Variable num_write : numbers_doc -> image.
+Hypothesis H_num : forall d, ext_parse F_NUMBERS (num_write d) = phys_numbers d.
+
+Lemma facade_numbers_ok d : wf_numbers d ->
+  open_read ext_parse F_NUMBERS (num_write d) (headers (flatten_numbers d)) = Ok (expected (flatten_numbers d)).
+Proof.
+  intros Hwf. unfold open_read. rewrite reader_for_ok. cbn [bind facade_read].
+  rewrite H_num, (numbers_ok d Hwf). reflexivity.
+Qed.
+End ThirdParty.
+
+(* ================================================================ single-sheet formats, names, by-name form *)
+Lemma single_sheet_names :
+  (forall rows, sheet_names (C_single rows) = [[]])
+  /\ (forall docs, sheet_names (C_json docs) = [[]])
+  /\ (forall f W, third_party f = true -> single_sheet f = true -> sheet_names (phys f W) = [[]])
+  /\ (forall f c probes, third_party f = true -> single_sheet f = true -> sheet_names c = [[]] ->
+        map fst (facade_read f c probes) = [[]])
+  /\ (forall file l probes, map fst (read_fixed file l probes) = [[]])
+  /\ (forall r kind wb_lrecl file l probes, map fst (read_ebcdic r kind wb_lrecl file l probes) = [[]]).
+Proof.
+  repeat split; try reflexivity.
+  - intros f W Htp Hs. destruct f; try discriminate Htp; try discriminate Hs; reflexivity.
+  - intros f c probes Htp Hs Hn. destruct f; try discriminate Htp; try discriminate Hs; cbn [facade_read].
+    + unfold read_header. rewrite Hn. reflexivity.
+    + unfold read_header. rewrite Hn. reflexivity.
+    + unfold read_json. rewrite Hn. reflexivity.
+Qed.
+
+Lemma combine_map_r {A B C} (g : B -> C) (hs : list A) : forall (r : list B),
+  combine hs (map g r) = map (fun kc => (fst kc, g (snd kc))) (combine hs r).
+Proof.
+  induction hs as [|h hs IH]; intros [|c r]; try reflexivity. cbn [map combine fst snd]. f_equal. apply IH.
+Qed.
+
+Lemma expected_is_cells_by_name T : rows_by_name (t_header T) (expected_rows T) = expected_by_name T.
+Proof.
+  unfold rows_by_name, expected_rows, expected_by_name, cells_by_name. f_equal. rewrite !map_map.
+  apply map_ext. intros r. exact (combine_map_r (fun c : key => @Ok (option cell) (Some (Txt c))) (t_header T) r).
+Qed.
+
+Lemma expected_shape (W : workbook) :
+  map fst (expected W) = map fst W
+  /\ Forall2 (fun o s => exists rows, snd o = Ok rows /\ length rows = length (t_rows (snd s))) (expected W) W.
+Proof.
+  split; [unfold expected; rewrite map_map; reflexivity|].
+  induction W as [|s W IH]; constructor; [|exact IH].
+  eexists. split; [reflexivity|]. rewrite map_length. reflexivity.
+Qed.
+
+(* ---- the known finding: a Numbers sheet name containing the separator ---- *)
+Definition bad_doc : numbers_doc :=
+  [([97; 58; 58; 98]%N, [([84]%N, mk_table [[104]%N] [[[118]%N]])])].
+
+Lemma numbers_refuted :
+  NoDup (map fst bad_doc)
+  /\ read_header (phys_numbers bad_doc) (headers (flatten_numbers bad_doc))
+     = [([97; 58; 58; 98; 58; 58; 84]%N, Err KeyError)]
+  /\ read_header (phys_numbers bad_doc) (headers (flatten_numbers bad_doc)) <> expected (flatten_numbers bad_doc).
+Proof.
+  split; [cbn; constructor; [intros []|constructor]|].
+  split; [vm_compute; reflexivity|]. vm_compute. intros H. discriminate H.
+Qed.
+
+Lemma rows_preset_is_row_iter (s : schema) (src : sheet) :
+  row_iter NoLoader (Some s) src = Ok (Some s, src) /\ rows_preset (Some s) src = Ok src.
+Proof. split; [apply rows_noloader|apply rows_preset_some]. Qed.
